@@ -69,6 +69,10 @@ def norm_hist(h):
 
 def _replay_one(args):
     c, ci, hist, kw, chk_all, tid = args
+    if driver.HANGS >= driver.HANG_BUDGET:
+        # the code under test hangs: the hangs already observed by this worker are reported, the rest is skipped
+        return {'id': tid, 'ci': ci, 'opt': {'ignore': bool(kw.get('ignore_contract', False)), 'metas': bool(kw.get('metas', True))},
+                'lines': [], 'hist': [], 'kw': kw, 'skipped': 'after hangs'}
     try:
         if 'fork' in kw:
             k2 = dict(kw)
